@@ -1517,9 +1517,9 @@ void eval_instruction (const char *p) {
                       sp->u.lvalue->u.number = c;
                     }
                   mbtowc (NULL, NULL, 0); /* reset conversion state */
-                  /* Decrement bytes remaining and continue loop */
-                  if (char_len > 0)
-                    (sp - 1)->subtype -= (short)char_len;
+                  /* Decrement bytes remaining by the bytes consumed above: the single byte fallback
+                   * (char_len is 1, 0 or -1 for an invalid sequence) always consumes one byte */
+                  (sp - 1)->subtype -= (unsigned short)(char_len > 1 ? char_len : 1);
                   COPY_SHORT (&offset, pc);
                   pc -= offset; /* repeat loop - will check subtype at next iteration */
                   break;
